@@ -361,3 +361,76 @@ def mk(x):
     if p < 0.05:
         trend = 1 if z > 0 else (-1 if z < 0 else 0)
     return {"s": s, "tau": tau, "var": var, "z": z, "p": p, "slope": slope, "trend": trend}
+
+
+# =============================================================================================
+# SPI: gamma MLE / zero mixture / normal quantile (SciPy, independent root bracket)
+# =============================================================================================
+def gamma_s(pos):
+    """s = log(mean) - mean(log) over positive values (float64, compensated sums)."""
+    pos = [float(v) for v in pos]
+    n = len(pos)
+    return math.log(math.fsum(pos) / n) - math.fsum(math.log(v) for v in pos) / n
+
+
+def gamma_alpha(s):
+    """Root of log(a) - digamma(a) = s on a bracket independent of Thom's estimate."""
+    from scipy.optimize import brentq
+    from scipy.special import digamma
+
+    f = lambda a: math.log(a) - float(digamma(a)) - s  # noqa: E731
+    lo, hi = 1e-8, 1e15
+    if f(lo) <= 0 or f(hi) >= 0:
+        return None
+    return float(brentq(f, lo, hi, xtol=1e-300, rtol=4 * np.finfo(float).eps, maxiter=500))
+
+
+def spi_reference(x, valid_mask, window, alpha_beta=None):
+    """x: float64 values; valid_mask: not nodata. Returns dict(index (unrounded, nan where nodata/negative),
+    alpha, beta, p0, fittable, reason)."""
+    from scipy.special import gammainc, ndtri
+
+    x = np.asarray(x, dtype=np.float64)
+    ok = np.asarray(valid_mask, dtype=bool)
+    usable = ok & (x >= 0)
+    n_valid = int(usable.sum())
+    if n_valid == 0:
+        return {"fittable": False, "reason": "no valid cells"}
+    p0 = int((usable & (x == 0)).sum()) / n_valid
+    if p0 > 0.9:
+        return {"fittable": False, "reason": "more than 90% zeros", "p0": p0}
+    c0, c1 = window
+    sel = np.zeros(x.size, dtype=bool)
+    sel[c0:c1] = True
+    pos = x[sel & ok & (x > 0)]
+    if pos.size == 0:
+        return {"fittable": False, "reason": "no positive value in the calibration window", "p0": p0}
+    if alpha_beta is None:
+        if np.unique(pos).size < 2:
+            return {"fittable": None, "reason": "fewer than two distinct positives (outside C07)", "p0": p0}
+        s = gamma_s(pos)
+        if not s > 0:
+            return {"fittable": None, "reason": "s not positive in float64", "p0": p0}
+        alpha = gamma_alpha(s)
+        if alpha is None:
+            return {"fittable": None, "reason": "no root in bracket", "p0": p0}
+        beta = float(math.fsum(pos.tolist()) / pos.size / alpha)
+    else:
+        alpha, beta = alpha_beta
+        s = None
+    idx = np.full(x.size, np.nan)
+    with np.errstate(all="ignore"):
+        prob = p0 + (1 - p0) * gammainc(alpha, x[usable] / beta)
+        idx[usable] = 1000.0 * ndtri(prob)
+    return {"fittable": True, "index": idx, "alpha": alpha, "beta": beta, "p0": p0, "s": s, "usable": usable}
+
+
+def spi_tie_width(idx, alpha):
+    """Half-width around x.5 inside which either rounding is accepted (per cell)."""
+    from scipy.stats import norm
+
+    z = np.abs(idx) / 1000.0
+    with np.errstate(all="ignore"):
+        phi = norm.pdf(z)
+        amp = 1000.0 * 200 * U / np.maximum(phi, 1e-300)
+    return 1e-3 + amp + np.abs(idx) * (1e-9 + 8e-15 * alpha)
